@@ -860,6 +860,10 @@ func (p *printer) expr(t *Term) string {
 	case "zero_extend", "sign_extend":
 		return fmt.Sprintf("((_ %s %s) %s)", t.Op, t.Name, p.ref(t.Args[0]))
 	case "constarr":
+		// cvc5 wants a value (not a defined name) as the element of a constant array
+		if isValueTerm(t.Args[0]) {
+			return fmt.Sprintf("((as const %s) %s)", t.Sort, p.expr(t.Args[0]))
+		}
 		return fmt.Sprintf("((as const %s) %s)", t.Sort, p.ref(t.Args[0]))
 	case "forall", "exists":
 		var sb strings.Builder
@@ -1025,4 +1029,14 @@ func freeBoundVars(t *Term) []*Term {
 	}
 	rec(t, map[*Term]bool{})
 	return out
+}
+
+func isValueTerm(t *Term) bool {
+	switch t.Op {
+	case "bv", "true", "false":
+		return true
+	case "constarr":
+		return isValueTerm(t.Args[0])
+	}
+	return false
 }
